@@ -332,6 +332,33 @@ pub fn len(vec: &UnalignedVector)
 //@end
 }
 
+pub struct SizeMismatch { pub vector_codec: &'static str, pub rem: usize }
+/// `transmute::<&[u8], &UnalignedVector<Self>>(bytes)`: `UnalignedVector` is a transparent wrapper of the bytes (the unsafe
+/// reinterpretation itself is in the trusted base)
+#[verifier::external_body]
+pub fn uv_from_bytes_(bytes: &[u8]) -> (r: UnalignedVector) ensures r.vector@ == bytes@ { unimplemented!() }
+impl BinaryQuantized {
+//@extract src/unaligned_vector/binary_quantized.rs | impl UnalignedVectorCodec for BinaryQuantized | from_bytes
+//@subst
+<<<
+fn from_bytes(bytes: &[u8]) -> Result<Cow<UnalignedVector<Self>>, SizeMismatch>
+===
+pub fn from_bytes(bytes: &[u8]) -> Result<UnalignedVector, SizeMismatch>
+>>>
+//@subst
+<<<
+Ok(cow_borrowed({ transmute::<&[u8], &UnalignedVector<Self>>(bytes) }))
+===
+Ok(uv_from_bytes_(bytes))
+>>>
+//@spec
+    ensures
+        // a quantised vector is accepted iff it consists of complete 64-bit words, and then it is exactly those bytes
+        bytes@.len() % 8 == 0 ==> r is Ok && r->Ok_0.vector@ == bytes@,
+        bytes@.len() % 8 != 0 ==> r is Err && r->Err_0.rem == bytes@.len() % 8,
+//@end
+}
+
 /// C12, read-back: what `iter` yields from the bytes `from_slice_non_optimized` stored is, position by position, the sign of the
 /// input component, and -1 (bit false) in the padding up to the next multiple of 64
 pub proof fn lemma_read_back(s: Seq<f32>, stored: Seq<u8>, it: BinaryQuantizedIterator)
